@@ -5,6 +5,8 @@ import numpy as np
 
 from vmon import gen, instr
 
+from vmon.scale import S
+
 ID = 'C19'
 RULE = ('cases = real signals (T 8..4096, K 1..4 sources, 1..5 outputs / sensors, scales 1e-6..1e6): si_sdr against the explicit definition, its '
         'scale invariances and per-leading-index independence; input_sxr / output_sxr against explicit power sums, 1/SDR = 1/SIR + 1/SNR, '
@@ -18,7 +20,7 @@ ASSUMPTIONS = ['explicit python-loop power sums are the reference']
 
 def plan(tier, seed):
     rng = np.random.default_rng([seed, 119])
-    n = 150 if tier == 'quick' else 1500
+    n = S(tier, 150, 1500)
     cases, i = [], 0
     for lane in ('sisdr', 'input', 'output', 'snr'):
         for r in range(n):
